@@ -17,6 +17,7 @@ pub enum Sym {
     WvKey,
     WvDelta,
     WvKeyNoCfg,
+    WvKeyNoCfgFar,
     WvKeyShort,
     WvCfgNoIdr,
     WvEmpty,
@@ -38,6 +39,8 @@ pub enum Sym {
     WvdBHalf,
     WvdBigCts,
     WvdHuge,
+    WvdHugePts,
+    WvdHugeDts,
     WaEqual,
     WaPlus,
     WaHalfGap,
@@ -74,6 +77,7 @@ pub const FULL: &[Sym] = &[
     Sym::WvdB,
     Sym::WaEqual,
     Sym::WvKeyNoCfg,
+    Sym::WvKeyNoCfgFar,
     Sym::WvKeyShort,
     Sym::WvCfgNoIdr,
     Sym::WvEmpty,
@@ -94,6 +98,8 @@ pub const FULL: &[Sym] = &[
     Sym::WaHalfGap,
     Sym::WaAlmostHalfGap,
     Sym::WvdHuge,
+    Sym::WvdHugePts,
+    Sym::WvdHugeDts,
     Sym::WaMinus,
     Sym::WaBeforeVideo,
     Sym::WaJustBeforeVideo,
@@ -241,6 +247,9 @@ pub fn concretize(sym: Sym, step: usize, m: &Contract, fx: &Fixtures) -> Op {
         Sym::WvKey => wv(next, &fx.key_cfg[i], true),
         Sym::WvDelta => wv(next, &fx.delta[i], false),
         Sym::WvKeyNoCfg => wv(next, &fx.key_nocfg[i], true),
+        // a keyframe without configuration 1000 s further on: as a first frame it is rejected at a
+        // time that differs from the time of the frame that will start the track
+        Sym::WvKeyNoCfgFar => wv(next + 1000.0, &fx.key_nocfg[i], true),
         Sym::WvKeyShort => wv(next, &fx.key_short, true),
         Sym::WvCfgNoIdr => wv(next, &fx.cfg_noidr[i], false),
         Sym::WvEmpty => wv(next, &fx.empty, true),
@@ -335,6 +344,17 @@ pub fn concretize(sym: Sym, step: usize, m: &Contract, fx: &Fixtures) -> Op {
         Sym::WvdHuge => {
             let (d, k) = ordinary(m);
             wvd(1e300, 1e300, d, k)
+        }
+        // one of the two times saturates the 64-bit tick counter while the other is ordinary: the
+        // composition offset is about 2^64 ticks (far outside the 32-bit field), yet its value
+        // modulo 2^64 is small
+        Sym::WvdHugePts => {
+            let (d, k) = ordinary(m);
+            wvd(1e300, next, d, k)
+        }
+        Sym::WvdHugeDts => {
+            let (d, k) = ordinary(m);
+            wvd(next, 1e300, d, k)
         }
         Sym::WaEqual => wa(a_base, &fx.audio_ok[i]),
         Sym::WaPlus => wa(a_base + 0.02, &fx.audio_ok[i]),
